@@ -229,6 +229,16 @@ Definition do_wk (target_r : bool) (k : wkk) (w : wsub) (s : st) : st * option w
   let nxt' := if wk_is_drop k then match nxt with Some W4 => None | x => x end else nxt in
   (s2, nxt').
 
+(* The step order of `State::close`, read from the source (gen/Gen_C17.v): does the closing side wake
+   its peer before `open.swap(false)` / after it.  The current source does all four; the theorems of
+   proofs/ are proved for that configuration (they stop compiling otherwise), while `run` and the
+   bounded explorer follow whatever the source says. *)
+Definition is1 (n : N) : bool := match n with 1 => true | _ => false end.
+Definition cfg_pre_s : bool := is1 Gen_C17.close_pre_wake_sender.
+Definition cfg_post_s : bool := is1 Gen_C17.close_post_wake_sender.
+Definition cfg_pre_r : bool := is1 Gen_C17.close_pre_wake_receiver.
+Definition cfg_post_r : bool := is1 Gen_C17.close_post_wake_receiver.
+
 (* ---------------------------------------------------------------------------------------- *)
 (* Producer (send.rs)                                                                        *)
 (* ---------------------------------------------------------------------------------------- *)
@@ -239,7 +249,7 @@ Definition pbegin (op : pop_t) (s : st) : st :=
   match op with
   | OPush items => s .> set_pitems items .> set_ppc (Acq QTry Q1)                          (* try_slice *)
   | OSPoll items => s .> set_pitems items .> set_snotif false .> set_ppc (Acq QPoll1 Q1)   (* poll_slice *)
-  | ODropS => s .> set_pitems [] .> set_ppc (Wk KClose1 W1)                                (* Drop for Sender *)
+  | ODropS => s .> set_pitems [] .> set_ppc (if cfg_pre_s then Wk KClose1 W1 else Swap)                                (* Drop for Sender *)
   end.
 
 Definition p_acq_ret (q : qk) (r : ares) (s : st) : st :=
@@ -306,7 +316,10 @@ Definition pstep (fx : bool) (cap : N) (s0 : st) : st :=
           | KDropS => s2 .> set_ppc Free
           end
       end
-  | Swap => s .> set_pwas (if fx then pwas s else open s) .> set_open false .> set_ppc (Wk KClose2 W1)      (* open.swap(false, SeqCst) *)
+  | Swap =>                                                                     (* open.swap(false, SeqCst) *)
+      let w := if fx then pwas s else open s in
+      s .> set_pwas w .> set_open false
+        .> set_ppc (if cfg_post_s then Wk KClose2 W1 else if fx then Rel else if w then Done else Drop1)
   | Drop1 => s .> set_ph (head s) .> set_phc (hpub s) .> set_ppc Drop2
   | Drop2 => s .> set_pt (tail s) .> set_ppc Drop3
   | Drop3 =>
@@ -327,7 +340,7 @@ Definition cbegin (op : cop_t) (s : st) : st :=
   match op with
   | OPop k => s .> set_cwant k .> set_cpc (Acq QTry Q1)
   | ORPoll k => s .> set_cwant k .> set_rnotif false .> set_cpc (Acq QPoll1 Q1)
-  | ODropR => s .> set_cwant 0 .> set_cpc (Wk KClose1 W1)
+  | ODropR => s .> set_cwant 0 .> set_cpc (if cfg_pre_r then Wk KClose1 W1 else Swap)
   end.
 
 Definition c_acq_ret (q : qk) (r : ares) (s : st) : st :=
@@ -393,7 +406,10 @@ Definition cstep (fx : bool) (cap : N) (s0 : st) : st :=
           | KDropS => s2 .> set_cpc Free
           end
       end
-  | Swap => s .> set_cwas (if fx then cwas s else open s) .> set_open false .> set_cpc (Wk KClose2 W1)
+  | Swap =>
+      let w := if fx then cwas s else open s in
+      s .> set_cwas w .> set_open false
+        .> set_cpc (if cfg_post_r then Wk KClose2 W1 else if fx then Rel else if w then Done else Drop1)
   | Drop1 => s .> set_ch (head s) .> set_cpc Drop2
   | Drop2 => s .> set_ct (tail s) .> set_ctc (npub s) .> set_cpc Drop3
   | Drop3 =>
@@ -458,6 +474,7 @@ Fixpoint seqN (start : N) (n : nat) : list N :=
   match n with O => [] | S k => start :: seqN (start + 1) k end.
 
 Definition is_done (p : pc) : bool := match p with Done => true | _ => false end.
+Definition is_idle_pc (p : pc) : bool := match p with Idle => true | _ => false end.
 
 Definition out_p (s : st) : list Z :=
   if quiet (ppc s)
@@ -479,7 +496,25 @@ Definition out_skip (s : st) : list Z := [9%Z; 0%Z; Nz (rwakes s); Nz (swakes s)
    trailer: -1, then the values freed by the channel when both sides are gone, then the wake counts *)
 Definition max_k : N := 200.
 
-Definition do_op (cap : N) (op arg : Z) (s : st) : st * list Z :=
+(* Inline mode (op 6): the sender task's waker polls the sender (poll_slice, nothing pushed) from
+   inside wake().  This is a legitimate single-threaded schedule at finer-than-operation granularity:
+   the sender's poll runs between two atomic steps of the consumer's operation, exactly where the
+   waker is invoked.  The model does the same: after a consumer step that invoked the sender's waker,
+   the producer runs one whole poll.  Returned: number of inline polls, the last one's code and the
+   sender wake count at that moment. *)
+Fixpoint c_run_inl (fuel : nat) (cap : N) (s : st) (n code swk : N) : st * (N * N * N) :=
+  match fuel with
+  | O => (s, (n, code, swk))
+  | S f =>
+    if quiet (cpc s) then (s, (n, code, swk)) else
+    let s1 := cstep code_fixed cap s in
+    if (swakes s <? swakes s1) && is_idle_pc (ppc s1)
+    then let s2 := p_run code_fixed 64 cap (pbegin (OSPoll []) s1) in
+         c_run_inl f cap s2 (n + 1) (pcode s2) (swakes s2)
+    else c_run_inl f cap s1 n code swk
+  end.
+
+Definition do_op (cap : N) (inl : bool) (op arg : Z) (s : st) : st * list Z :=
   let k := N.min (zN arg) max_k in
   let fuel := (6 * N.to_nat k + 64)%nat in
   match op with
@@ -492,23 +527,32 @@ Definition do_op (cap : N) (op arg : Z) (s : st) : st * list Z :=
                end in
       let s' := p_run code_fixed fuel cap (pbegin o s) in (s', out_p s')
   | _ =>
-      if is_done (cpc s) then (s, out_skip s) else
+      if is_done (cpc s) then (s, out_skip s ++ (if inl then [0%Z; 0%Z; 0%Z] else [])) else
       let o := match op with
                | 2%Z => OPop k
                | 3%Z => ORPoll k
                | _ => ODropR
                end in
-      let s' := c_run code_fixed fuel cap (cbegin o s) in (s', out_c s')
+      if inl then
+        let '(s', (n, code, swk)) := c_run_inl fuel cap (cbegin o s) 0 0 0 in
+        (s', out_c s' ++ [Nz n; Nz code; Nz swk])
+      else
+        let s' := c_run code_fixed fuel cap (cbegin o s) in (s', out_c s')
   end.
 
-Fixpoint run_ops (fuel : nat) (cap : N) (ops : list Z) (s : st) : st * list Z :=
+Fixpoint run_ops (fuel : nat) (cap : N) (ops : list Z) (inl : bool) (s : st) : st * list Z :=
   match fuel with O => (s, []) | S f =>
   match ops with
   | [] => (s, [])
-  | [op] => let '(s1, o1) := do_op cap op 0 s in (s1, o1)
-  | op :: arg :: r =>
-      let '(s1, o1) := do_op cap op arg s in
-      let '(s2, o2) := run_ops f cap r s1 in (s2, o1 ++ o2)
+  | op :: r =>
+      let arg := hd 0%Z r in
+      if (6 <=? op)%Z then
+        (* op 6: switch the sender's waker to inline polling (arg <> 0) or back to counting *)
+        let '(s2, o2) := run_ops f cap (tl r) (negb (arg =? 0)%Z) s in
+        (s2, 0%Z :: 0%Z :: Nz (rwakes s) :: Nz (swakes s) :: o2)
+      else
+      let '(s1, o1) := do_op cap inl op arg s in
+      let '(s2, o2) := run_ops f cap (tl r) inl s1 in (s2, o1 ++ o2)
   end end.
 
 Definition norm_cap (c : Z) : N := N.min (zN c) 128.
@@ -516,7 +560,7 @@ Definition norm_cap (c : Z) : N := N.min (zN c) 128.
 Definition run (case : list Z) : list Z :=
   let c := norm_cap (hd 0%Z case) in
   let cap := alloc_cap c in
-  let '(s1, o1) := run_ops (S (length case)) cap (tl case) (init cap) in
+  let '(s1, o1) := run_ops (S (length case)) cap (tl case) false (init cap) in
   (* the harness finally drops the sender, then the receiver *)
   let s2 := if is_done (ppc s1) then s1 else p_run code_fixed 64 cap (pbegin ODropS s1) in
   let s3 := if is_done (cpc s2) then s2 else c_run code_fixed 64 cap (cbegin ODropR s2) in
@@ -561,12 +605,28 @@ Definition woken (w : option Z) (now : Z) : bool :=
   match w with None => true | Some w0 => (w0 <? now)%Z end.
 
 (* one operation's output [code; n; vals; rwakes; swakes] judged against the history *)
-Definition judge_op (c : Z) (op : Z) (j : jst) (out : list Z) : option (jst * list Z) :=
+Definition judge_op (c : Z) (inl : bool) (op : Z) (j : jst) (out : list Z) : option (jst * list Z) :=
   match out with
   | code :: n :: rest =>
     match take_vals n rest with
-    | Some (vals, rwk :: swk :: rest') =>
+    | Some (vals, rwk :: swk :: rest0) =>
+      (* in inline mode every consumer-side operation also reports: number of inline sender polls,
+         the last one's code, and the sender wake count at that moment *)
+      let consumer_side := negb ((op =? 0) || (op =? 1) || (op =? 4))%Z in
+      let '(n_inl, l_code, l_swk, rest', wf) :=
+        if inl && consumer_side then
+          match rest0 with
+          | a :: b :: d :: r' => (a, b, d, r', true)
+          | _ => (0%Z, 0%Z, 0%Z, rest0, false)
+          end
+        else (0%Z, 0%Z, 0%Z, rest0, true) in
+      if negb wf then None else
       if (code =? 9)%Z then Some (j, rest') else
+      (* a sender that polled Pending inline, before the event of this operation (space appeared / the
+         channel was closed) was published, must have been woken after that poll *)
+      let inl_pending := (0 <? n_inl)%Z && (l_code =? 3)%Z in
+      let inl_wait (w : option Z) : option Z :=
+        if (0 <? n_inl)%Z then (if (l_code =? 3)%Z then Some l_swk else None) else w in
       match op with
       | 0%Z | 1%Z =>
           let pushed' := j_pushed j ++ vals in
@@ -593,11 +653,12 @@ Definition judge_op (c : Z) (op : Z) (j : jst) (out : list Z) : option (jst * li
           let pending := (op =? 3)%Z && (code =? 3)%Z in
           let ok_pending := negb pending ||
                ((length (j_pushed j) =? length popped')%nat && negb (j_sdone j)) in
-          if ok_fifo && ok_wake && ok_pending
-          then Some (mkJ (j_pushed j) popped' (if pending then Some rwk else None) wait_s' (j_sdone j) (j_rdone j), rest')
+          let ok_inl := match vals with [] => true | _ => negb inl_pending || (l_swk <? swk)%Z end in
+          if ok_fifo && ok_wake && ok_pending && ok_inl
+          then Some (mkJ (j_pushed j) popped' (if pending then Some rwk else None) (inl_wait wait_s') (j_sdone j) (j_rdone j), rest')
           else None
       | _ =>
-          if woken (j_wait_s j) swk
+          if woken (j_wait_s j) swk && (negb inl_pending || (l_swk <? swk)%Z)
           then Some (mkJ (j_pushed j) (j_popped j) None None (j_sdone j) true, rest')
           else None
       end
@@ -606,7 +667,7 @@ Definition judge_op (c : Z) (op : Z) (j : jst) (out : list Z) : option (jst * li
   | _ => None
   end.
 
-Fixpoint judge_ops (fuel : nat) (c : Z) (ops : list Z) (j : jst) (out : list Z) : bool :=
+Fixpoint judge_ops (fuel : nat) (c : Z) (ops : list Z) (inl : bool) (j : jst) (out : list Z) : bool :=
   match fuel with O => false | S f =>
   match ops with
   | [] =>
@@ -625,11 +686,17 @@ Fixpoint judge_ops (fuel : nat) (c : Z) (ops : list Z) (j : jst) (out : list Z) 
       | _ => false
       end
   | op :: r =>
-      match judge_op c op j out with
-      | Some (j', out') => judge_ops f c (tl r) j' out'
+      if (6 <=? op)%Z then
+        match out with
+        | _ :: _ :: _ :: _ :: out' => judge_ops f c (tl r) (negb (hd 0 r =? 0)%Z) j out'
+        | _ => false
+        end
+      else
+      match judge_op c inl op j out with
+      | Some (j', out') => judge_ops f c (tl r) inl j' out'
       | None => false
       end
   end end.
 
 Definition judge (case out : list Z) : bool :=
-  judge_ops (S (length case)) (Nz (norm_cap (hd 0%Z case))) (tl case) (mkJ [] [] None None false false) out.
+  judge_ops (S (length case)) (Nz (norm_cap (hd 0%Z case))) (tl case) false (mkJ [] [] None None false false) out.
